@@ -21,6 +21,7 @@ import (
 	"time"
 
 	"github.com/tmpim/casket"
+	"github.com/tmpim/casket/caskethttp/httpserver"
 	_ "github.com/tmpim/casket/onevent"
 	"verifharness/hx"
 	"verifharness/probe"
@@ -142,6 +143,9 @@ func (w *world) config(a attempt, gen int) casket.Input {
 		kk = "final_htpasswd"
 	}
 	lines = append(lines, w.kindLines(kk, gen)...)
+	if a.K == "listen_busy_udp" {
+		lines = append(lines, "tls self_signed") // QUIC (switched on around this attempt) needs a TLS site
+	}
 	b.WriteString(w.site(w.ports["n1"], root, lines...))
 	second := w.ports["n2"]
 	if a.K == "listen_busy" {
@@ -403,6 +407,12 @@ func TestC08(t *testing.T) {
 			in := w.config(a, gen)
 			evs = append(evs, event{Ev: "call", S: a.S, K: a.K})
 			var inst *casket.Instance
+			var udpHeld net.PacketConn
+			if a.K == "listen_busy_udp" {
+				// the http server type also listens on UDP when QUIC is on; somebody else holds that port
+				httpserver.QUIC = true
+				udpHeld, _ = net.ListenPacket("udp", "127.0.0.1:"+strconv.Itoa(w.ports["n1"]))
+			}
 			t0 := time.Now()
 			rerr, hung := timed(func() error {
 				var e error
@@ -419,6 +429,12 @@ func TestC08(t *testing.T) {
 				return e
 			})
 			durs[a.S] += time.Since(t0)
+			if a.K == "listen_busy_udp" {
+				httpserver.QUIC = false
+				if udpHeld != nil {
+					udpHeld.Close()
+				}
+			}
 			if a.K == "htpasswd_malformed" {
 				os.WriteFile(w.htbad, []byte(htGood), 0o644) // the operator repairs the file
 			}
@@ -507,6 +523,11 @@ func TestC08(t *testing.T) {
 		res.Count(nt)
 		if ci%131 == 0 {
 			res.Sample(map[string]interface{}{"history": h.Attempts, "trace": evs})
+		}
+	}
+	if !aborted && !hx.SelfTest() && hx.Replay() == "" {
+		if err := partRoller(res, t.TempDir()); err != nil && res.Infra == "" {
+			res.Infra = err.Error()
 		}
 	}
 	tw.Close()
